@@ -162,6 +162,32 @@ func c13apply(kind string, c ap.CollectionInterface, op c13op) (res J) {
 			return J{"k": "n", "n": int(n), "collection_len": len(c.Collection())}
 		}
 		return J{"k": "n", "n": int(n)}
+	case "IRIs":
+		ids := []int{}
+		for _, iri := range c.Collection().IRIs() {
+			ids = append(ids, idOfItem(iri))
+		}
+		return J{"k": "ids", "ids": ids}
+	case "Normalize":
+		n := c.Collection().Normalize()
+		switch v := n.(type) {
+		case nil:
+			return J{"k": "none"}
+		case ap.ItemCollection:
+			ids := []int{}
+			for _, it := range v {
+				ids = append(ids, idOfItem(it))
+			}
+			return J{"k": "ids", "ids": ids}
+		default:
+			return J{"k": "id", "id": idOfItem(n)}
+		}
+	case "ItemsMatch":
+		its := make([]ap.Item, len(op.Xs))
+		for i, x := range op.Xs {
+			its[i] = poolItem(x)
+		}
+		return J{"k": "bool", "b": c.Collection().ItemsMatch(its...)}
 	case "First":
 		col := c.Collection()
 		if len(col) == 0 {
@@ -280,6 +306,8 @@ func init() {
 					}
 				case r < 9:
 					op = c13op{O: "Count"}
+				case r < 10 && s%7 == 3:
+					op = c13op{O: []string{"IRIs", "Normalize", "First"}[rng.Intn(3)]}
 				default:
 					op = c13op{O: "AppendMany", Xs: []int{x, 1 + rng.Intn(ids), 1 + rng.Intn(ids)}}
 				}
